@@ -64,7 +64,33 @@ def build(spec):
         for n, vt, meta in spec['nodes']:
             if not g.node_exists(n):
                 g.add_node(n, variable_type=NodeVariableType(vt), meta=dict(meta) if meta else None)
+    # "the answer never depends on construction order": half of the acyclic operands reach the comparison after a sequence
+    # of calls that is the identity by the reference semantics (refused calls, things that come and go, a rename there and
+    # back, a retype there and back -- harness.gen.stress, proved to be the identity for the model in CG.C01 detour laws);
+    # the builder compares the full shape before and after, what it notices reaches this lane's oracle
+    if _acyclic_spec(spec):
+        from harness import gen as _gen
+        _gen.stress(g, ('c07-build', spec['cls'], len(spec['nodes']), repr(spec['edges'])[:200]))
     return g
+
+
+def _acyclic_spec(spec):
+    succ = {}
+    for s, d, ty, _ in spec['edges']:
+        if ty == '->':
+            succ.setdefault(s, []).append(d)
+    state = {}
+
+    def visit(x):
+        if state.get(x) == 1:
+            return False
+        if state.get(x) == 2:
+            return True
+        state[x] = 1
+        ok = all(visit(y) for y in succ.get(x, []))
+        state[x] = 2
+        return ok
+    return all(visit(x) for x in list(succ))
 
 
 def apply_late(g, spec):
@@ -504,6 +530,41 @@ class Lane(LaneBase):
                 else:
                     if r['op'] != '0' or r['ne'] != '1':
                         oracle.append(f'{what}: graphs of different classes compare == {r["op"]}, != {r["ne"]}')
+        # derived graphs are graphs: the ancestral / descendant sub-graph of a node is deeply equal to the same sub-graph
+        # built by hand (same nodes WITH their variable types and metadata, same edges with their metadata), copies too
+        sp0 = case['graphs'][0]
+        if not sp0.get('late') and sp0['edges'] and _acyclic_spec(sp0) and all(t == '->' for _, _, t, _ in sp0['edges']):
+            G = gs[0]
+            names0 = [n for n, _, _ in sp0['nodes']]
+            piv = names0[case.get('sub', 0) % len(names0)]
+            for kind in ('anc', 'desc'):
+                keep = {piv}
+                grew = True
+                while grew:
+                    grew = False
+                    for s_, d_, _, _ in sp0['edges']:
+                        a_, b_ = (s_, d_) if kind == 'anc' else (d_, s_)
+                        if b_ in keep and a_ not in keep:
+                            keep.add(a_)
+                            grew = True
+                sub_spec = {'cls': sp0['cls'], 'nodes': [x for x in sp0['nodes'] if x[0] in keep],
+                            'edges': [e for e in sp0['edges'] if e[0] in keep and e[1] in keep]}
+                try:
+                    H = build(dict(sub_spec, edges=[]))      # (no detours on the reference operand)
+                    for s_, d_, ty_, m_ in sub_spec['edges']:
+                        H.add_edge(s_, d_, edge_type=EdgeType(ty_), meta=dict(m_) if m_ else None, validate=False)
+                    D = G.get_ancestral_graph(piv) if kind == 'anc' else G.get_descendant_graph(piv)
+                    tD, tH = impl.enc_graph(D), impl.enc_graph(H)
+                    for deep in (0, 1):
+                        v = both(f'eq graph {tD} {tH} {deep}', ans(lambda: D.__eq__(H, deep=bool(deep))))
+                        if v != '1':
+                            oracle.append(f'the {"ancestral" if kind == "anc" else "descendant"} sub-graph of {piv!r} is not '
+                                          f'{"deeply " if deep else ""}equal to the same sub-graph built by hand ({v})')
+                    C = G.copy()
+                    if ans(lambda: C.__eq__(G, deep=True)) != '1' or ans(lambda: G.__eq__(C, deep=True)) != '1':
+                        oracle.append('copy() is not deeply equal to the graph')
+                except Exception as e:  # noqa: BLE001
+                    oracle.append(f'derived-graph comparison raised {type(e).__name__}: {e}')
         # reflexivity, symmetry, transitivity (same class)
         for i in idx:
             G = gs[i]
